@@ -43,10 +43,10 @@ FLOORS = {'*': {**{f'{k}:{w}': 10 for k in ('openapi', 'openrpc') for w in ('con
                 'context:not-first': 20, 'context:positional': 10, 'subsets-dispatched': 3000, 'accepted': 300, 'refused': 1000,
                 'methods': 100, 'twin-registration': 30, 'exclusion:by-name': 30, 'exclusion:default-none': 30, 'exclusion:by-annotation': 30,
                 'validator:base': 100, 'validator:pydantic': 30, 'validator:pydantic:extra-ignore': 30, 'validator:pydantic:extra-allow:as-is': 30,
-                'view:context-name-equals-a-parameter-name': 30}}
+                'view:context-name-equals-a-parameter-name': 30, 'style:wrapped': 30, 'style:view-static': 30, 'style:view-class': 30}}
 
 
-def render(params, ctx_at, ctx_name, skip, as_view):
+def render(params, ctx_at, ctx_name, skip, as_view, first='self', lead=None, fname='f'):
     """params: [(name, kind, has_default)]; ctx inserted at index ctx_at among the positional-or-keyword ones (or KO if beyond)"""
     plist = list(params)
     if ctx_at is not None and not as_view:
@@ -56,8 +56,10 @@ def render(params, ctx_at, ctx_name, skip, as_view):
         # a non-default parameter cannot follow defaults among PK: give ctx no default but keep order legal
         plist.insert(ctx_at, (ctx_name, kind, False))
     parts, star = [], False
-    if as_view:
-        parts.append('self')
+    if as_view and first:
+        parts.append(first)
+    if lead:
+        parts.append(lead)          # a parameter the wrapper supplies itself and hides from the published signature
     seen_default = False
     for name, kind, dflt in plist:
         if kind == 'KO' and not star:
@@ -73,7 +75,7 @@ def render(params, ctx_at, ctx_name, skip, as_view):
             parts.append('*')
         parts.append({'by-name': "skip: str = 'skip-default'", 'default-none': 'skip: str = None',
                       'by-annotation': "skip: Injected = 'skip-default'"}[skip if isinstance(skip, str) else 'by-name'])
-    return f"def f({', '.join(parts)}):\n    return 'ok'"
+    return f"def {fname}({', '.join(parts)}):\n    return 'ok'"
 
 
 def documented(kind, doc, key):
@@ -113,15 +115,31 @@ def make_validator(name, pred):
 
 def run_method(ctx, params, ctx_at, positional, skip, style, validator='base'):
     params = [tuple(p) for p in params]
-    as_view = style == 'view'
+    as_view = style.startswith('view')
     ctx_name = 'ctx'
     if positional and ctx_at != 0:
         ctx.skip('positional-context-must-be-first')
         return
-    src = render(params, ctx_at, ctx_name, skip, as_view)
+    ctx.hit('style:' + style)
+    if style == 'wrapped':
+        # a decorator that injects `session` and publishes the narrowed signature through __signature__
+        src = render(params, ctx_at, ctx_name, skip, False, lead='session', fname='_inner') + (
+            "\n\n@functools.wraps(_inner)\ndef f(*args, **kwargs):\n    return _inner('SESSION', *args, **kwargs)\n\n"
+            "_sig = inspect.signature(_inner)\n"
+            "f.__signature__ = _sig.replace(parameters=[p for p in _sig.parameters.values() if p.name != 'session'])")
+    else:
+        first = {'view': 'self', 'view-static': None, 'view-class': 'cls'}.get(style, 'self')
+        src = render(params, ctx_at, ctx_name, skip, as_view, first=first)
+        if style == 'view-static':
+            src = '@staticmethod\n' + src
+        elif style == 'view-class':
+            src = '@classmethod\n' + src
     class Injected(str):
         """marker annotation of injected (excluded) parameters"""
-    ns = {'ViewMixin': pjrpc.server.ViewMixin, '__name__': 'vmon_c17_programs', 'Injected': Injected}
+    import functools
+    import inspect
+    ns = {'ViewMixin': pjrpc.server.ViewMixin, '__name__': 'vmon_c17_programs', 'Injected': Injected, 'functools': functools,
+          'inspect': inspect}
     if skip is True:
         skip = 'by-name'
     pred = {None: None, False: None,
@@ -144,7 +162,7 @@ def run_method(ctx, params, ctx_at, positional, skip, style, validator='base'):
             vsrc = 'class V(ViewMixin):\n    def __init__(self, context=None):\n        super().__init__()\n' + \
                    '\n'.join('    ' + l for l in src.splitlines())
             exec(compile(vsrc, '<vmon_c17_programs>', 'exec', dont_inherit=True), ns)
-            validator.validate(ns['V'].f)
+            validator.validate(ns['V'].__dict__['f'].__func__ if style != 'view' else ns['V'].f)
             method = pjrpc.server.dispatcher.ViewMethod(ns['V'], 'f', 'f', context=view_ctx)
         else:
             exec(compile(src, '<vmon_c17_programs>', 'exec', dont_inherit=True), ns)
@@ -273,6 +291,9 @@ def _ctx_required(fn, name):
     return inspect.signature(fn).parameters[name].default is inspect.Parameter.empty
 
 
+PARAM_NAMES = ['a', 'ref', 'c', 'type', 'e']      # incl. names that mean something inside a schema document
+
+
 def signatures(max_params):
     out = []
     for n in range(0, max_params + 1):
@@ -285,9 +306,9 @@ def signatures(max_params):
                     ps = []
                     for i, k in enumerate(kinds):
                         if k == 'PK':
-                            ps.append(['abcde'[i], k, i >= first_default])
+                            ps.append([PARAM_NAMES[i], k, i >= first_default])
                         else:
-                            ps.append(['abcde'[i], k, bool(ko_mask >> (i - n_pk) & 1)])
+                            ps.append([PARAM_NAMES[i], k, bool(ko_mask >> (i - n_pk) & 1)])
                     out.append(ps)
     return out
 
@@ -308,9 +329,11 @@ def gen(ctx):
         ctx_options = [(None, False)] + [(at, False) for at in range(n + 1)] + [(0, True)]
         for ctx_at, positional in ctx_options:
             for skip in (False, 'by-name', 'default-none', 'by-annotation'):
-                for style in ('def', 'view'):
+                for style in ('def', 'view', 'wrapped', 'view-static', 'view-class'):
                     k += 1
-                    if style == 'view' and ctx_at not in (None, 0):
+                    if style.startswith('view') and ctx_at not in (None, 0):
+                        continue
+                    if style in ('wrapped', 'view-static', 'view-class') and k % 3:
                         continue
                     if not full and k % 3 and not (ctx_at not in (None, 0)):
                         continue
